@@ -667,7 +667,11 @@ class Arbiter(object):
             rlist, wlist, xlist = select.select(sockets, [], [], 0)
             if rlist:
                 self.socket_event = True
-                self._start_watchers()
+                # only the on-demand watchers: a socket event must not
+                # bring back watchers that were stopped on purpose
+                self._start_watchers(
+                    watcher_iter_func=lambda: [w for w in self.iter_watchers()
+                                               if w.on_demand])
                 self.socket_event = False
 
     @synchronized("arbiter_reload")
